@@ -1,5 +1,5 @@
 //@unit sm2_limbs
-//@serves C03 C04 C05 C06 C11 C14 C15 C19
+//@serves C03 C04 C05 C06 C11 C14 C15 C19 C20
 //@source gm-sm2/src/u256.rs
 //@assume byteorder::{ReadBytesExt, WriteBytesExt} on std::io::Cursor / Vec<u8> behave as the model in section `spec` (big-endian fixed-width reads/writes; Err iff fewer bytes remain)
 //@include-spec sm2_math
@@ -570,7 +570,7 @@ fn u256_to_be_bytes(a: &U256) -> (ret: Vec<u8>)
 }
 
 fn u256_from_be_bytes(input: &[u8]) -> (elem: U256)
-    requires input@.len() >= 32
+    requires input@.len() >= 32 //@carveout D40
     ensures val4(elem@) == be_val(input@.subrange(0, 32))
 {
     let mut elem = [0, 0, 0, 0];
